@@ -159,6 +159,8 @@ def check_value(case):
         labels = ["A:kind:" + kind]
         nontrivial = kind not in TRIVIAL_KINDS
         home = st["home"]
+        if not V.in_domain(kind, spec):         # only a saved case can get here
+            return None, False, labels + ["A:outside-value-domain"]
 
         def fail(fkind, detail):
             return (Failure(fkind, case, "$%s (%s) = %s: %s" % (name, kind, json.dumps(spec), detail),
@@ -435,6 +437,13 @@ class History:
 
     def touch(self):
         self.changed = True
+
+    def _read_refreshes(self, name):
+        """Reading a container value is what makes xonsh rebuild the export (Env.__getitem__ drops the cached
+        mapping).  A read that an alias overlay answers hands out the *overlay's* object and returns before that:
+        the global value was not read, so an edit made earlier through a held reference to it is still unexported
+        (F1) after such a read - seen by a second thread, whose view is the global one."""
+        return not self.in_overlay(name)
 
     # -- oracle ----------------------------------------------------------------------
 
@@ -768,7 +777,8 @@ class History:
             return False
         if obj is None:
             obj = self._do(lambda: self.env[name], "read $%s" % name)
-            self.dirty.clear()      # reading a container is xonsh's documented way of keeping the export fresh
+            if self._read_refreshes(name):
+                self.dirty.clear()  # reading a container is xonsh's documented way of keeping the export fresh
         r = self._do(lambda: self._mutate(kind, obj, cell, op["m"]), "in-place %s on $%s" % (op["m"][0], name))
         if r is False:
             return False
@@ -792,7 +802,10 @@ class History:
         if cell.get("raw") and self.in_overlay(name):
             return False
         obj = self._do(lambda: self.env[name], "read $%s" % name)
-        self.dirty.clear()
+        if self._read_refreshes(name):
+            self.dirty.clear()
+        else:
+            self.labels["container-read-answered-by-alias-overlay"] += 1
         self.held[op["slot"]] = (name, cell, obj)
 
     def op_read(self, op):
@@ -800,8 +813,7 @@ class History:
             return False
         self._do(lambda: self.env.get(op["k"]), "read $%s" % op["k"])
         c = self.effective(op["k"])
-        if c["kind"] in V.MUTABLE_KINDS and not (c.get("raw") and self.in_overlay(op["k"])) and \
-                not self.in_overlay(op["k"]):
+        if c["kind"] in V.MUTABLE_KINDS and self._read_refreshes(op["k"]):
             self.dirty.clear()
 
     def op_detype(self, op):
@@ -1689,7 +1701,9 @@ def main(run):
     run.assumptions += [
         "valid values exclude what the string form cannot represent by construction: entries containing the "
         "separator, a path list / set whose only entry is the empty string, NaN, lower-case $PATHEXT entries, "
-        "fractional or infinite $XONSH_HISTORY_SIZE counts, compiled patterns for $XONSH_HISTORY_IGNORE_REGEX",
+        "fractional or infinite $XONSH_HISTORY_SIZE counts, second counts given as an int beyond +-2**53 (seconds "
+        "are converted with float(); int-vs-float of an equal number is not compared), compiled patterns for "
+        "$XONSH_HISTORY_IGNORE_REGEX",
         "equality of the nested value is taken per type: sequences element-wise, paths after making them absolute, "
         "None == '' for $XONSH_TRACEBACK_LOGFILE (documented string form), cursor-shape configs by class, "
         "$LS_COLORS colour names only as produced by xonsh's own escape-code table (reference = a fresh LsColors)",
@@ -1715,5 +1729,7 @@ def replay(run, path):
         print("replay: property holds on this case")
         return 0
     f = Failure.from_json(r)
-    print("VIOLATION property=%s replay=%s kind=%s %s" % (PROP, path, f.kind, common._oneline(f.detail)))
+    print("VIOLATION property=%s replay=%s kind=%s %s%s" % (
+        PROP, path, f.kind, common._oneline(f.detail),
+        " [shape of recorded finding %s]" % f.finding if f.finding else ""))
     return 1
